@@ -20,6 +20,7 @@ fn main() {
         "C13" => dispatch::<props::c13::C13>(&args, &verif),
         "C14" => dispatch::<props::c14::C14>(&args, &verif),
         "C18" => dispatch::<props::c18::C18>(&args, &verif),
+        "C19" => dispatch::<props::c19::C19>(&args, &verif),
         _ => {
             eprintln!("unknown property id {:?}", id);
             2
